@@ -866,3 +866,21 @@ Proof.
   - unfold s'. apply step_inv. apply reach_inv.
   - unfold has_ref_memo in HM. fold s'. rewrite (memo_find_none_ref _ _ _ HM). congruence.
 Qed.
+
+(* phase 2 (b): the schedule "resolveLayer of l ... release of (r,t) ... " with the success recorded in cacheLayer's section *)
+Lemma release_during_resolve_harmless : forall w os r t l,
+  let s := exec Fixed w init os in
+  In l (image w r) -> toc_of w l = Some t -> memo_find (memo s) r l <> Some false ->
+  let s' := exec Fixed w s [Resolve r l false; Release r t] in
+  memo_find (memo s') r l <> Some false
+  /\ snd (step Fixed w s' (Lookup r t false [])) = ROk.
+Proof.
+  intros w os r t l s Hl T M s'.
+  assert (C : clean w s' r l).
+  { unfold s'. eapply exec_clean; [exact T| |exact M]. repeat constructor; simpl; auto. }
+  split; [exact C|].
+  unfold s', s. rewrite <- exec_app.
+  apply (lookup_succeeds w _ r t l false [] (reach_inv w _) Hl T); auto.
+  - right. reflexivity.
+  - rewrite exec_app. exact C.
+Qed.
